@@ -7,11 +7,7 @@ Import ListNotations.
 From SG Require Import Base.Sums Base.Cmp NumPy.Gather NumPy.Index NumPy.Tensor NumPy.ViewsAux NumPy.Views NumPy.Spec.
 From SG Require Import Proofs.ViewsAuxProofs Proofs.ViewsReshapeProofs.
 
-(* out axis k of moveaxis(s -> d) is in axis mv s d k *)
-Definition mv (s d k : nat) : nat :=
-  if k =? d then s else let k' := if k <? d then k else k - 1 in if k' <? s then k' else S k'.
-(* out axis k of swapaxes(a, b) is in axis sw a b k *)
-Definition sw (a b k : nat) : nat := if k =? b then a else if k =? a then b else k.
+(* mv s d / sw a b (NumPy/Spec.v): out axis k of moveaxis(s -> d) / swapaxes(a, b) is in axis mv s d k / sw a b k *)
 
 Ltac casesb :=
   repeat match goal with
